@@ -145,8 +145,12 @@ impl BuildJob<'_> {
             if !sf.is_override {
                 log_warn!("{:?} - old: {:?}\n", &nice_t, &sf.stamp);
                 log_warn!("{:?} - old: {:?}\n", &nice_t, &newstamp);
-                sf.set_override(ptx.state().env())?;
             }
+            // Record the file as it is now, also when it had been overridden
+            // before and has been edited by hand once more: otherwise its
+            // recorded stamp stays behind for ever and everything that depends
+            // on it is rebuilt by every run.
+            sf.set_override(ptx.state().env())?;
             sf.save(&mut ptx)?;
             // Fall through and treat it the same as a static file.
         }
